@@ -100,6 +100,20 @@ def pm_sync_harness(I):
     if I.ctx.ghost.get("resend_contract_used"):
         # _process_resend is by contract here; its effect on the stored outbound counter is C06's subject
         cl = [(n, c) for n, c in cl if n != "sync.outbound_counter_stored"]
+    return cl + inbound_order_clauses(post)
+
+
+def inbound_order_clauses(post):
+    """Program order of inbound processing (ghost op log): an application message is journaled as received - and the
+    stored inbound counter moved past it - only after the application callback has returned.  A kill before or
+    inside on_message then leaves a journal that still expects the number: the successor asks for it again instead
+    of treating a message nobody handled as done ("killed at any point while receiving ... without losing")."""
+    ops = post.ops
+    cl = []
+    for i, o in enumerate(ops):
+        if o[0] == "hook" and o[1] == "on_message":
+            before = [p for p in ops[:i] if p[0] in ("persist_begin", "persist_commit") and p[1] == "INBOUND"]
+            cl.append(("crash.inbound_journaled_after_handled", len(before) == 0))
     return cl
 
 
@@ -171,7 +185,7 @@ def send_fault_harness(I):
 def resend_sync_harness(I):
     """_process_resend (real body, C06 harness): afterwards stored = live also for the outbound counter."""
     import C06_resend as c06
-    cl = c06.harness(False)(I)
+    cl = c06.harness(False, relation_only=True)(I)
     keep = ("after.stored_counter_restored", "after.next_outbound_number_restored")
     return [("sync.resend." + n.split(".", 1)[1], c) for n, c in cl if n in keep] + [("sync.resend.runs", True)]
 
@@ -182,6 +196,8 @@ def crash_concrete(obs):
     for i, o in enumerate(ops):
         if o == "write":
             cl.append(("crash.new_number_durable_before_wire", "persist:OUTBOUND" in ops[:i]))
+        if o == "hook:on_message":
+            cl.append(("crash.inbound_journaled_after_handled", "persist:INBOUND" not in ops[:i]))
     return cl
 
 
@@ -248,9 +264,7 @@ def witness_case(task, cover):
 
 def witness_agrees(task, cover, engine, obs):
     eo = dict(cover["inputs"].get("__observed__", {}))
-    if any(w.get("opaque") for w in eo.get("W", [])):
-        for k in ("W", "EV", "st", "was_active", "nout", "J_out"):
-            eo.pop(k, None)
+    sc.drop_resend_predictions(eo)
     bad = sc.conn_agrees(eo, obs)
     if bad:
         obs["mismatch"] = bad
@@ -294,29 +308,41 @@ FUNCS = [CONN + "." + f for f in ("__init__", "_process_message", "_finalize_mes
 TASKS = [
     Task("init[existing]", init_harness(True), init_cfg, [CONN + ".__init__", jc.JQ + ".create_or_load"]),
     Task("init[new]", init_harness(False), init_cfg, [CONN + ".__init__", jc.JQ + ".create_or_load"]),
-    Task("sync[process_message]", pm_sync_harness, ic.pm_cfg(), [CONN + "._process_message", CONN + "._finalize_message"],
+    Task("sync[process_message]", pm_sync_harness, ic.pm_cfg(ic.RESEND_NEEDS["C09"]), [CONN + "._process_message", CONN + "._finalize_message"],
          native="conn", timeout_ms=20000),
     Task("sync[send_msg]", send_sync_harness, sc.session_cfg(), [CONN + ".send_msg"], native="conn"),
     Task("crash[send_msg,transport_fault]", send_fault_harness, sc.session_cfg(), [CONN + ".send_msg"], native="conn"),
     Task("sync[process_resend]", resend_sync_harness, _c06_cfg(), [CONN + "._process_resend"], timeout_ms=20000),
     Task("sync[disconnect]", disconnect_sync_harness, sc.session_cfg(), [CONN + ".disconnect"], native="conn"),
     Task("sync[reset_seq_num]", reset_sync_harness, sc.session_cfg(), [CONN + ".reset_seq_num"], native="conn"),
-    Task("mustfail", mustfail, ic.pm_cfg(), [], expect_refuted=True),
+    Task("mustfail", mustfail, ic.pm_cfg(ic.RESEND_NEEDS["C09"]), [], expect_refuted=True),
 ]
+import C06_resend as _c06  # noqa: E402
+# the callee contract of _process_resend used by sync[process_message] is a proved over-approximation of the real body
+TASKS.insert(len(TASKS) - 1, _c06.refinement_task(ic.RESEND_NEEDS["C09"], ic.RESEND_INV["C09"]))
+# "restored counters equal those the old object held for everything it had completed" rests on every journal write
+# being durable when the call returns and on create_or_load reading back what was stored: the Journaler's SQL bodies
+# under C13's clauses, their refinement to the abstract journal used above and C08's crash-consistency clauses are
+# decided in the same run
+import shared_tasks as _st  # noqa: E402
+TASKS[-1:-1] = _st.journal_tasks(ops=("persist_msg", "set_seq_num", "create_or_load")) + _st.encode_tasks()
 
 PROPERTY = Property(
     "C09", TASKS,
     assumptions=[
         "single-endpoint part only: 'after reconnect and Logon the session continues without losing or duplicating "
         "application messages ... without a ResendRequest when nothing was lost' needs the peer and is not decided "
-        "(see C07); a kill between on_message() and the journaling of that inbound message re-delivers it after the "
-        "restart (deliver-then-journal) - out of scope",
+        "(see C07); an application message is journaled as received only after on_message() returned (clause "
+        "crash.inbound_journaled_after_handled): a kill inside the callback leaves the journal expecting the number, "
+        "a kill right after it re-delivers the message after the restart (at-least-once on the receiving side)",
         "A-IND: 'for everything it had completed' = Inv.I2 (stored = live - 1) after every handler + init.* ; the "
         "induction over the history is not mechanised",
-        "Journaler.persist_msg / set_seq_num abstract contracts (proved on the SQL bodies in C13; durability in C08); "
-        "_process_resend by contract (C06): its effect on the stored outbound counter is excluded here",
-        "Codec.encode contract (C05), A-HOOK, A-IO, A-LOG; inbound messages carry the session's CompIDs (header "
-        "defects end in a disconnect that touches no counter: C11)",
+        "Journaler.persist_msg / set_seq_num / create_or_load: their abstract contracts are consequences of the clauses "
+        "proved on the SQL bodies in this run (tasks journal.*: C13's clauses, the refinement lemmas, C08's durability "
+        "clauses); _process_resend by contract in the dispatcher task (relation proved on the real body in this run: "
+        "refinement[_process_resend]); its effect on the stored outbound counter is the task sync[process_resend]",
+        "Codec.encode's number choice on the real body in this run (tasks callee.*); A-HOOK, A-IO, A-LOG; inbound "
+        "messages carry the session's CompIDs (header defects end in a disconnect that touches no counter: C11)",
         "A-SQL for the init.* tasks (real create_or_load over the sqlite3 contract model)",
     ],
     trusted_base=["pyvc", "z3 5.1.0", "sqlmodel.py (init tasks)"],
